@@ -35,6 +35,7 @@ MALFORMED = [
 
 
 def roots(tier, seed):
+    from .. import cover
     out = []
     ns = [1, 2] if tier == "quick" else [1, 2, 3]
     # (A) single faults at every evaluation index
@@ -152,10 +153,22 @@ def roots(tier, seed):
                                 case["tag"]["special"] = "radius-underflow"
                                 case["explore"] = 0
                                 out.append(case)
+    # (H) single faults at every evaluation index with the solver's own assertions switched on (debug=True):
+    #     barrier values make constraint gradients of order 1e30 next to bound gradients of order one
+    for n in ([2] if tier == "quick" else [2, 3]):
+        for pats in [("lo",) + ("wide",) * (n - 1), ("wide",) * n, ("free",) * n]:
+            for cons in ["ball_le", "ball_eq", "ball_two", "nl_vec", "lin+nl", "lin+cubic"]:
+                for where in ("in", "on"):
+                    for xs in (1.0, 2.0 ** 20):
+                        case = alpha.base_case(n, pats, where, "quad", cons,
+                                               options={"debug": True, "maxfev": 12 * n})
+                        cover.apply_scales(case, xs, 1.0, 1.0 if xs == 1.0 else 2.0 ** -30, 0.0)
+                        case["explore"] = 1
+                        case["tag"]["special2"] = "debug-faults"
+                        out.append(case)
     # (F) malformed arguments
     for name in MALFORMED:
         out.append({"malformed": name, "n": 2})
-    from .. import cover
     out += cover.roots_for(tier, explore_thorough=1)
     return alpha.permute(out, seed)
 
